@@ -40,9 +40,11 @@ func pick(evs []hev, kind string, pred func(hev) bool) []hev {
 func (x hev) must() bool { return x.w.chainMust(x.ev.Fr, x.ev.Site) }
 
 func runC05(cx *Ctx, r *Report) {
+	defer func() { r.requireCount("settlement-committed", 1) }()
 	r.Explanation = "F4 double entry for staked principal on every call chain of Stake and Unstake: Stake = {signer→farm escrow (msg.Amount), farmer.Locked += msg.Amount.Amount, pool.TotalLptLocked += msg.Amount.Amount}, all must-executed and persisted; Unstake = {farm escrow→signer (msg.Amount), farmer.Locked −= msg.Amount.Amount, and exactly one of two mutually exclusive pool-total updates (expired branch: direct subtraction; running pool: through the shared pool update with the negated amount)}, dominated by ¬(Locked < amount) and ¬(pool total < amount); in the expired branch no call that can return an error precedes the payout. Rewards are paid only out of the reward-collector account, only to the signer, only with the amount computed by the per-share calculation; the only payouts out of the farm escrow are unstaked principal, reward release to the collector and budget refunds. Decides the bookkeeping structure; that a withdrawal from a running pool can never fail (the release arithmetic) is not decided."
 	r.Assumptions = []string{"bank keeper semantics", "Σ farmer.Locked = pool.TotalLptLocked holds initially; the rules keep it by pairing equal deltas"}
 	per := collectEvents(cx, r, "farm", "msg", "abci")
+	cx.farmSettlementCommitted(r, per)
 	amt := "msg.Amount.Amount"
 	// ---------------- Stake
 	{
@@ -277,6 +279,7 @@ func runC06(cx *Ctx, r *Report) {
 	r.Explanation = "F4 double entry for the reward budget on every call chain of the farm handlers and the end blocker. Create: creator→escrow(total) is must-executed and each rule is initialised with TotalReward = RemainingReward = that coin's amount. Adjust: creator→escrow(additional) is co-executed with TotalReward += and RemainingReward += AmountOf(additional, rule denom). Release: RemainingReward −= RewardPerBlock·(height−last) is co-located with escrow→collector of the same product, under the facts height advanced ∧ total staked > 0 ∧ ¬(remaining < product). Refund: the dequeue of the active entry is must-executed first, each rule's remaining budget is added to the refund and then zeroed and persisted in the same iteration, the refund is paid from the escrow to the creator (or the community pool); the zeroing is reachable only from DestroyPool and the end blocker, and DestroyPool holds creator == signer, Editable and ¬Expired. Decides conservation structure; pro-rata shares and rounding bounds are not decided."
 	r.Assumptions = []string{"bank keeper semantics", "the active queue contains each running pool once (C13)"}
 	per := collectEvents(cx, r, "farm", "msg", "abci")
+	cx.farmSettlementCommitted(r, per)
 	// ---------------- create
 	{
 		evs := per["CreatePool"]
@@ -614,4 +617,30 @@ func commonFrame(a, b *Event) (*Frame, ssa.Instruction, ssa.Instruction) {
 		return nil, nil, nil
 	}
 	return ca[i-1], siteOf(ca, i, a), siteOf(cb, i, b)
+}
+
+// farmSettlementCommitted (C05, C06): everything the end blocker does for an ending pool -
+// the last release of rewards to the collector, the refund, the zeroed budgets, the
+// dequeue - happens on the block's own context. On a branched context that is dropped
+// on some path (e.g. when Refund reports that nothing is left to refund) the last
+// interval's rewards are never collected and the farmers lose them.
+func (cx *Ctx) farmSettlementCommitted(r *Report, per map[string][]hev) {
+	n, bad := 0, 0
+	for _, x := range per["EndBlock"] {
+		if !(strings.HasPrefix(x.ev.Kind, "bank.") || x.ev.Kind == "store.set" || x.ev.Kind == "store.delete") {
+			continue
+		}
+		n++
+		if at, disc := cx.discardedBranch(x.w, x.ev); disc {
+			bad++
+			if bad == 1 {
+				r.violate("settlement-committed", "EndBlock", x.ev.Pos(cx), "the end blocker settles an ending pool on a branched context (CacheContext at "+at+") whose write function is not called on every path: where the branch is dropped the final reward release and the dequeue are lost while the block carries on ("+x.ev.Kind+" on chain "+x.ev.Fr.String()+")")
+			}
+		}
+	}
+	if n == 0 {
+		r.toolErr("no state effect found on the farm EndBlock chain")
+	} else if bad == 0 {
+		r.ok("settlement-committed", "EndBlock", "", fmt.Sprintf("all %d state effects of the farm end blocker run on the block's own context (no branch that can be dropped)", n))
+	}
 }
